@@ -109,6 +109,9 @@ func (s *Service) Subscribe(ctx context.Context, ns libshare.Namespace) (<-chan 
 	if s.ctx == nil {
 		return nil, fmt.Errorf("service has not been started")
 	}
+	// the subscription lives as long as the service lifetime it was made in: Start after Stop
+	// replaces s.ctx, and a subscription busy with a retrieval at that moment must still end
+	svcCtx := s.ctx
 
 	log.Infow("subscribing for blobs",
 		"namespaces", ns.String(),
@@ -148,7 +151,7 @@ func (s *Service) Subscribe(ctx context.Context, ns libshare.Namespace) (<-chan 
 						log.Debugw("blobsub: canceling subscription due to user ctx closing", "namespace", ns.ID())
 						return
 					}
-					if s.ctx.Err() != nil {
+					if svcCtx.Err() != nil {
 						// service is stopped, the retrieval must not be retried forever
 						log.Debugw("blobsub: canceling subscription due to service ctx closing", "namespace", ns.ID())
 						return
@@ -172,7 +175,7 @@ func (s *Service) Subscribe(ctx context.Context, ns libshare.Namespace) (<-chan 
 			case <-ctx.Done():
 				log.Debugw("blobsub: canceling subscription due to user ctx closing", "namespace", ns.ID())
 				return
-			case <-s.ctx.Done():
+			case <-svcCtx.Done():
 				log.Debugw("blobsub: canceling subscription due to service ctx closing", "namespace", ns.ID())
 				return
 			}
